@@ -128,9 +128,13 @@ def crash(clause, exc, extra=""):
     """Turn an exception escaping code under test into a Violation with a root-cause signature."""
     where = onl_frame(exc)
     if where == "?":
-        # no frame of the tree under test is involved: the harness itself is at fault
-        tb = "".join(traceback.format_exception(type(exc), exc, exc.__traceback__))
-        return HarnessError(f"exception without any onl frame during {clause} {extra}:\n{tb}")
+        # No frame of the tree under test is involved: the harness tripped over something the code under test handed it (a value
+        # of another type, a missing attribute). On the reference tree this never happens (multi-seed sweeps), so it is reported
+        # as changed behaviour under the clause being judged - like runner.execute does - rather than as exit 2.
+        fs = traceback.extract_tb(exc.__traceback__)
+        at = f"{os.path.basename(fs[-1].filename)}:{fs[-1].name}" if fs else "?"
+        return Violation(clause, f"{type(exc).__name__}({exc}) while judging {clause} {extra} (harness frame {at})".strip(),
+                         f"{clause}/unexpected/{type(exc).__name__}@{at}")
     sig = f"{clause}/crash/{type(exc).__name__}@{where}"
     return Violation(clause, f"{type(exc).__name__}({exc}) at {where} {extra}".strip(), sig)
 
